@@ -290,3 +290,48 @@ func checkC05(env *fw.Env, c C05Case) *fw.Failure {
 }
 
 func TestC05(t *testing.T) { fw.Run(t, "C05", genC05, checkC05) }
+
+// ---- C05 with many candidates under a small result limit -----------------
+//
+// One subject, 10-60 candidate objects most of which hold the relation, a
+// relation that needs a per-candidate evaluation (intersection / exclusion) or
+// not, and the same limited call repeated: the candidates' evaluations finish
+// concurrently on the real scheduler, which is where a limit that is checked
+// and counted in two steps lets extra objects through. Oracle as for C05.
+
+func genC05Limit(t *rapid.T) C05Case {
+	this := func() *m.Rewrite { return &m.Rewrite{Kind: m.This} }
+	user := []m.Restriction{{Type: "user"}}
+	op := []string{m.Intersection, m.Difference, m.Union}[rapid.IntRange(0, 2).Draw(t, "op")]
+	mo := &m.Model{Types: []m.TypeDef{{Name: "user"}, {Name: "doc", Relations: []m.Relation{
+		{Name: "r0", Rewrite: this(), Restr: user},
+		{Name: "r1", Rewrite: this(), Restr: user},
+		{Name: "r2", Rewrite: &m.Rewrite{Kind: op, Children: []*m.Rewrite{{Kind: m.Computed, Rel: "r0"}, {Kind: m.Computed, Rel: "r1"}}}},
+	}}}}
+	n := rapid.IntRange(10, 60).Draw(t, "nObjects")
+	p1 := 85
+	if op == m.Difference {
+		p1 = 15
+	}
+	var ts []m.Tuple
+	for i := 0; i < n; i++ {
+		if chance100(t, "has0", 85) {
+			ts = append(ts, m.Tuple{Object: fmt.Sprintf("doc:%d", i), Relation: "r0", User: "user:0"})
+		}
+		if chance100(t, "has1", p1) {
+			ts = append(ts, m.Tuple{Object: fmt.Sprintf("doc:%d", i), Relation: "r1", User: "user:0"})
+		}
+	}
+	c := C05Case{World: gen.World{Model: mo, Tuples: ts}}
+	call := LOCall{Req: sut.LORequest{Type: "doc", Relation: "r2", User: "user:0"}, Engine: loEngines[rapid.IntRange(0, 2).Draw(t, "engine")], Limit: rapid.IntRange(1, 3).Draw(t, "limit")}
+	for i, k := 0, rapid.IntRange(3, 8).Draw(t, "repeats"); i < k; i++ {
+		c.Calls = append(c.Calls, call)
+	}
+	return c
+}
+
+func chance100(t *rapid.T, label string, pct int) bool {
+	return rapid.IntRange(0, 99).Draw(t, label) < pct
+}
+
+func TestC05Limit(t *testing.T) { fw.Run(t, "C05", genC05Limit, checkC05) }
